@@ -185,9 +185,20 @@ class CLEAR(_TrackingMetricsBase):
             is_same_match: bool = False
             is_id_switched: bool = False
             for prev_obj_result in prev_object_results:
+                # NOTE: judge the previous result with its own threshold as it was judged in its own frame,
+                #       e.g. a result matched with FP labeled GT is not evaluated and must not be regarded as TP.
+                prev_matching_threshold_ = get_label_threshold(
+                    semantic_label=prev_obj_result.ground_truth_object.semantic_label
+                    if prev_obj_result.ground_truth_object is not None
+                    else prev_obj_result.estimated_object.semantic_label,
+                    target_labels=self.target_labels,
+                    threshold_list=self.matching_threshold_list,
+                )
+                if prev_matching_threshold_ is None:
+                    continue
                 is_tp_prev: bool = prev_obj_result.is_result_correct(
                     self.matching_mode,
-                    matching_threshold_,
+                    prev_matching_threshold_,
                 )
                 # is_tp_cur: bool = cur_obj_result.is_result_correct(
                 #     self.matching_mode,
